@@ -455,6 +455,9 @@ func (r *FnRun) execCall(st *State, site ssa.Instruction, call *ssa.CallCommon, 
 		if r.lockHook(st, site, f, call.Args, args) {
 			return unitVal()
 		}
+		if f.String() == "(*sync.Once).Do" && len(args) == 2 {
+			return r.onceDo(st, site, call, args, resT)
+		}
 		return r.callStatic(st, site, f, args, nil, resT)
 	case *ssa.MakeClosure:
 		fn := f.Fn.(*ssa.Function)
@@ -475,6 +478,38 @@ func (r *FnRun) execCall(st *State, site ssa.Instruction, call *ssa.CallCommon, 
 		return r.callStatic(st, site, fn, args, binds, resT)
 	}
 	return r.unknownCall(st, site, "dynamic call "+call.Value.Name()+" in "+r.shortFn(), resT)
+}
+
+// onceDo models (*sync.Once).Do(f) sequentially: if the Once has fired (ghost cell 910 of the Once)
+// nothing happens; otherwise it is marked and f runs.  Two paths.  (Do's blocking of concurrent
+// callers until f returns is outside the sequential model, like every interleaving.)
+func (r *FnRun) onceDo(st *State, site ssa.Instruction, call *ssa.CallCommon, args []Val, resT types.Type) Val {
+	cell := sx("fld", args[0].S, "910")
+	done := r.fresh("once.done", "Bool")
+	st.assume(sEq(done, sx("select", st.heap["B"], cell)))
+	var fn *ssa.Function
+	var binds []Val
+	switch fv := call.Args[1].(type) {
+	case *ssa.MakeClosure:
+		fn = fv.Fn.(*ssa.Function)
+		for _, b := range fv.Bindings {
+			binds = append(binds, r.val(st, b))
+		}
+	case *ssa.Function:
+		fn = fv
+	default:
+		return r.unknownCall(st, site, "sync.Once.Do with a dynamic function value in "+r.shortFn(), resT)
+	}
+	// path A: already done
+	stA := st.clone()
+	stA.assume(done)
+	r.continuationAfter(site, resT)(stA, nil)
+	// path B: first call
+	st.assume(sNot(done))
+	r.checkFrameCall(st, site, []modItem{{kind: "cell", ref: cell, heapK: "B", src: "sync.Once state"}}, "Once.Do")
+	r.setHeap(st, "B", sx("store", st.heap["B"], cell, "true"))
+	r.Assump["sync.Once is modelled sequentially (fired flag + one call of the function); its synchronisation of concurrent callers is trusted"] = true
+	return r.callStatic(st, site, fn, nil, binds, resT)
 }
 
 func (r *FnRun) unknownCall(st *State, site ssa.Instruction, what string, resT types.Type) Val {
@@ -688,6 +723,10 @@ func (r *FnRun) continuationAfter(site ssa.Instruction, resT types.Type) func(st
 			if st.panicked {
 				return
 			}
+			if st.recovering {
+				r.finishUnwind(st, site)
+				return
+			}
 		}
 		for _, in := range b.Instrs[idx+1:] {
 			if !r.execInstr(st, in, b) {
@@ -698,6 +737,59 @@ func (r *FnRun) continuationAfter(site ssa.Instruction, resT types.Type) func(st
 			}
 		}
 	}
+}
+
+// recoverSite: if the function under verification (not an inlined callee) has a recover block and a
+// deferred closure that calls recover(), a RunDefers instruction of it to anchor the unwinding on.
+func (r *FnRun) recoverSite(st *State) *ssa.RunDefers {
+	if st.inl != nil || r.Fn.Recover == nil || len(st.defers) == 0 {
+		return nil
+	}
+	calls := false
+	for _, af := range r.Fn.AnonFuncs {
+		for _, b := range af.Blocks {
+			for _, in := range b.Instrs {
+				if c, ok := in.(ssa.CallInstruction); ok {
+					if bi, ok := c.Common().Value.(*ssa.Builtin); ok && bi.Name() == "recover" {
+						calls = true
+					}
+				}
+			}
+		}
+	}
+	if !calls {
+		return nil
+	}
+	for _, b := range r.Fn.Blocks {
+		for _, in := range b.Instrs {
+			if rd, ok := in.(*ssa.RunDefers); ok {
+				return rd
+			}
+		}
+	}
+	return nil
+}
+
+// unwind runs the deferred calls of a panicking path; if one of them recovered, the function returns
+// through its recover block (named results as they are), otherwise the panic is a crash.
+func (r *FnRun) unwind(st *State, site *ssa.RunDefers) {
+	st.recovering = true
+	r.Assump[r.shortFn()+": a run-time panic is unwound through the deferred calls; recover() returns non-nil while unwinding (sequential model of panic/recover)"] = true
+	r.runDefers(st, site)
+	if st.panicked {
+		return // continued (or ended) inside an inlined deferred call
+	}
+	r.finishUnwind(st, site)
+}
+
+func (r *FnRun) finishUnwind(st *State, site ssa.Instruction) {
+	st.recovering = false
+	if !st.recovered {
+		r.check(st, "safe.panic", "unrecovered", site, "false", "a run-time panic on this path is not recovered by any deferred call")
+		return
+	}
+	st.recovered = false
+	r.execBlock(st, r.Fn.Recover, nil)
 }
 
 func (r *FnRun) runDefers(st *State, site *ssa.RunDefers) {
@@ -988,9 +1080,21 @@ func (r *FnRun) builtin(st *State, site ssa.Instruction, f *ssa.Builtin, call *s
 		return unitVal()
 	case "close":
 		cell := sx("fld", args[0].S, "904")
+		// closing a nil channel or a closed channel panics
+		r.check(st, "safe.close", "", site, sAnd(sNot(sEq(args[0].S, "null")), sNot(sx("select", st.heap["B"], cell))), "close of a channel that is neither nil nor already closed")
+		r.checkFrameCall(st, site, []modItem{{kind: "star", ref: args[0].S, src: "close"}}, "close")
 		r.setHeap(st, "B", sx("store", st.heap["B"], cell, "true"))
 		return unitVal()
 	case "recover":
+		if st.recovering {
+			// the panic value of a run-time panic is a non-nil error
+			st.recovered = true
+			v := r.freshVal(st, resT, "recovered")
+			if v.K == KIface {
+				st.assume(sNot(sEq(v.Tag, "0")))
+			}
+			return v
+		}
 		return nilIface(resT)
 	case "min", "max":
 		op := "imin"
@@ -1227,6 +1331,17 @@ func (r *FnRun) execSend(st *State, x *ssa.Send) {
 	sv := r.val(st, x.X)
 	r.incBlocked(st)
 	st.assume(sNot(sEq(ch.S, "null"))) // send on a nil channel never completes
+	// a send on a closed channel panics
+	closed := sx("select", st.heap["B"], sx("fld", ch.S, "904"))
+	if site := r.recoverSite(st); site != nil {
+		// the function recovers: the panic is a second way out, through the deferred calls
+		stP := st.clone()
+		stP.assume(closed)
+		r.unwind(stP, site)
+		st.assume(sNot(closed))
+	} else {
+		r.check(st, "safe.send", "", x, sNot(closed), "send on a channel that is not closed")
+	}
 	cnt := sx("fld", ch.S, "903")
 	r.setHeap(st, "I", sx("store", st.heap["I"], cnt, sAdd(sx("select", st.heap["I"], cnt), "1")))
 	if sv.K == KInt {
